@@ -58,6 +58,19 @@ def gen_query(rnd, refs, kind):
     if kind in ('exact', 'noisy', 'stretched'):
         a, b = window()
         lab = [p - rpos[a] for p in rpos[a:b]]
+        if rnd.random() < 0.2:
+            # the molecule overhangs an end of the reference: its seed diagonal starts before the reference origin (negative seed
+            # position) or its window runs past the last reference label
+            k = b - a
+            if rnd.random() < 0.5:
+                a, b = 0, min(n, k)
+                lab = [p - rpos[0] for p in rpos[a:b]]
+                extra = sorted(rnd.randint(1500, 40000 + rpos[0]) for _ in range(rnd.randint(2, 5)))
+                lab = [-x for x in extra] + lab
+            else:
+                a, b = max(0, n - k), n
+                lab = [p - rpos[a] for p in rpos[a:b]]
+                lab = lab + [lab[-1] + x for x in sorted(rnd.randint(1500, 40000) for _ in range(rnd.randint(2, 5)))]
         if kind == 'noisy':
             lab = [p + rnd.randint(-300, 300) for p in lab]
             lab = [p for p in lab if rnd.random() > 0.1]
@@ -191,6 +204,7 @@ class Run:
         self.args = None
         self.reference_maps = None
         self.query_maps = None
+        self.coordinator = None
 
 
 def _ordered_map(f, items, num_cpus=None, disable=None):
@@ -235,6 +249,7 @@ def run_program(workdir, mode, extra=(), capture=True, cpus=None, style=0):
         res.args = args
         prog = Program(args, [Catcher()] if capture else None)
         res.reference_maps, res.query_maps = prog.referenceMaps, prog.queryMaps
+        res.coordinator = prog.workflowCoordinator
         result = prog.run()
         res.rows = result.rows
     except BaseException as e:          # SystemExit from argparse included
